@@ -6,8 +6,9 @@ The effectful part of the model is written ONCE, as values of the inductive type
 failure, one primitive operation (a device call, a clock read, or an access to the mounted file system's interior
 state), sequencing, an error handler (`tryCatch`: the handful of places where the Rust code inspects an error instead
 of `?`-propagating it) and scope exit (`finallyDrop p c`: run `p`, then — whether it succeeded or failed — run the
-destructor bodies `c` of the values going out of scope, in which errors are logged and swallowed as in `impl Drop`,
-and return `p`'s result).
+destructor bodies `c r` of the values going out of scope (`r = some a` after success with result `a`, the final state
+of the dropped values may depend on it; `r = none` after a failure), in which errors are logged and swallowed as in
+`impl Drop`, and return `p`'s result).
 `run` interprets a program on a device `Dev`. Properties about how the code handles effects are theorems by induction
 on this syntax (`Proofs/Prog.lean`). -/
 namespace FatVerif
@@ -86,7 +87,7 @@ inductive Prog : Type → Type 1 where
   | op (o : Op) : Prog (Resp o)
   | bind {α β : Type} (p : Prog β) (k : β → Prog α) : Prog α
   | tryCatch {α : Type} (p : Prog α) (h : Err → Prog α) : Prog α
-  | finallyDrop {α : Type} (p : Prog α) (c : Prog Unit) : Prog α
+  | finallyDrop {α : Type} (p : Prog α) (c : Option α → Prog Unit) : Prog α
 
 instance : Monad Prog where
   pure := Prog.pure
@@ -106,7 +107,7 @@ def modifyFs (f : FsState → FsState) : Prog Unit := do
   let fs ← getFs
   setFs (f fs)
 /-- a destructor body run on its own (explicit `drop(x)` / end of statement for a temporary) -/
-def inDrop (c : Prog Unit) : Prog Unit := .finallyDrop (.pure ()) c
+def inDrop (c : Prog Unit) : Prog Unit := .finallyDrop (.pure ()) (fun _ => c)
 end Prog
 
 inductive CallKind where
@@ -226,13 +227,13 @@ def run {α : Type} : Prog α → Dev → Except Err α × Dev
     match run p d with
     | (.error e, d') =>
       if e.isFatal then (.error e, d') else
-      match run c { d' with dropDepth := d'.dropDepth + 1 } with
+      match run (c none) { d' with dropDepth := d'.dropDepth + 1 } with
       | (.error e', d'') =>
         if e'.isFatal then (.error e', { d'' with dropDepth := d''.dropDepth - 1 })
         else (.error e, { d'' with dropDepth := d''.dropDepth - 1 })
       | (.ok _, d'') => (.error e, { d'' with dropDepth := d''.dropDepth - 1 })
     | (.ok a, d') =>
-      match run c { d' with dropDepth := d'.dropDepth + 1 } with
+      match run (c (some a)) { d' with dropDepth := d'.dropDepth + 1 } with
       | (.error e', d'') =>
         if e'.isFatal then (.error e', { d'' with dropDepth := d''.dropDepth - 1 })
         else (.ok a, { d'' with dropDepth := d''.dropDepth - 1 })
